@@ -43,7 +43,7 @@ def srp_a_value(name=SRP_A) -> int:
 
 
 @contextlib.contextmanager
-def fixed_randomness(U: Universe):
+def fixed_randomness(U: Universe, a_int=None):
     """Ed25519PrivateKey.generate() and the SRP client secret chosen by the harness (no source hook).
     The SRP seam is best-effort: the oracle falls back to the accessory's view when it is not effective."""
     from cryptography.hazmat.primitives.asymmetric import ed25519
@@ -57,7 +57,7 @@ def fixed_randomness(U: Universe):
         srp_cls = srp_mod.Srp
         srp_orig = srp_cls.__dict__.get("generate_private_key")
         if srp_orig is not None:
-            srp_cls.generate_private_key = staticmethod(lambda: srp_a_value())
+            srp_cls.generate_private_key = staticmethod(lambda: srp_a_value() if a_int is None else a_int)
     except Exception:  # noqa: BLE001
         srp_cls = None
     try:
@@ -69,8 +69,10 @@ def fixed_randomness(U: Universe):
 
 
 class Scn:
-    def __init__(self, family, transport, cfg=0, acc=None, m2=(), m4=(), m6=(), honest=False, detail="", with_auth=True):
+    def __init__(self, family, transport, cfg=0, acc=None, m2=(), m4=(), m6=(), honest=False, detail="", with_auth=True,
+                 srp=None):
         self.family, self.transport, self.cfg, self.acc = family, transport, cfg, acc or {}
+        self.srp = srp                 # (client secret a, server secret b) pinned by the directed search, or None
         self.m2, self.m4, self.m6 = list(m2), list(m4), list(m6)
         self.honest, self.detail, self.with_auth = honest, detail, with_auth
 
@@ -81,7 +83,7 @@ class Scn:
         return "m2" if self.m2 else ("m4" if self.m4 else ("m6" if self.m6 else "none"))
 
     def base_key(self):
-        return (self.transport, self.cfg, tuple(sorted(self.acc.items())), self.with_auth)
+        return (self.transport, self.cfg, tuple(sorted(self.acc.items())), self.with_auth, self.srp)
 
 
 class State:
@@ -100,7 +102,9 @@ def new_state(s: Scn) -> State:
     a = dict(code=code, salt=salt, b=SRP_B, acc_id=acc_id, ltsk=ACC_LTSK, lenient=False)
     a.update(s.acc)
     st.acc_cfg = a
-    st.acc = SetupAccessory(U, a["code"], a["salt"], a["b"], a["acc_id"], a["ltsk"], SRP_A, CTRL_LTSK, a["lenient"])
+    st.a_int = s.srp[0] if s.srp else srp_a_value()
+    st.acc = SetupAccessory(U, a["code"], a["salt"], a["b"], a["acc_id"], a["ltsk"], SRP_A, CTRL_LTSK, a["lenient"],
+                            b_value=s.srp[1] if s.srp else None)
     st.ctx = H.Ctx()
     st.ctx.U, st.ctx.acc, st.ctx.state = U, st.acc, st
     st.mutated = set()
@@ -150,7 +154,7 @@ def step_to_m4(st: State, m2_ops):
         st.exc = "m2:" + type(e).__name__
         return False
     try:
-        with fixed_randomness(st.U):
+        with fixed_randomness(st.U, st.a_int):
             g2 = perform_pair_setup_part2(st.code.decode(), st.ios_id.decode(), salt, pk)
             req3, exp4 = g2.send(None)
     except Exception as e:  # noqa: BLE001
@@ -226,7 +230,8 @@ def summarise(s: Scn, st: State) -> dict:
                impl=impl, exc=st.exc, stored=stored, rec_problems=rec_problems, record=rec,
                bytes={k: (v.hex() if v is not None else None) for k, v in st.bytes.items()},
                code=st.code.decode(), ios_id=st.ios_id.decode(), with_auth=st.with_auth,
-               exp_lists=getattr(st, "exp_lists", []), m1_ok=getattr(st, "m1_ok", None),
+               exp_lists=getattr(st, "exp_lists", []), m1_ok=getattr(st, "m1_ok", None), a_int=hex(st.a_int),
+               b_int=hex(st.acc.b),
                mutated=sorted(getattr(st, "mutated", set())), not_tlv=st.not_tlv)
     # ---- model request
     a = st.acc_cfg
@@ -244,7 +249,7 @@ def summarise(s: Scn, st: State) -> dict:
     # ---- oracle
     just = why = None
     if st.A is not None:
-        a_int = srp_a_value()
+        a_int = st.a_int
         if R._powm(R.SRP_G, a_int, R.SRP_N).to_bytes(384, "big") == bytes(st.A):
             just, why = R.oracle_setup(st.bytes["m2"], st.bytes["m4"], st.bytes["m6"], s.transport, st.code, a_int, bytes(st.A))
             out["oracle"] = "client-view"
@@ -332,6 +337,55 @@ def run_all(scns, workers):
     return [results[i] for i in range(len(scns))]
 
 
+# ---- directed search: exchanges whose S, A, B, M1 or M2 start with a zero byte ---------------------------------
+LZ_KINDS = ["S", "A", "B", "M1", "M2"]
+
+
+def _lz_candidate(kind, i):
+    h = hashlib.sha512(f"verif|c03|leading-zero|{kind}|{i}".encode()).digest()
+    a = int.from_bytes(h[:16], "big")
+    b = int.from_bytes(hashlib.sha512(b"verif|c03|lz-b").digest()[:16], "big")
+    if kind == "B":
+        a, b = srp_a_value(), int.from_bytes(h[16:32], "big")
+    return a, b
+
+
+def _lz_holds(kind, a, b):
+    code, salt = CFGS[0][0], CFGS[0][1]
+    if kind == "A":
+        return R._powm(R.SRP_G, a, R.SRP_N) >> (8 * 383) == 0
+    if kind == "B":
+        v = R._powm(R.SRP_G, R.srp_x(salt, code), R.SRP_N)
+        return ((R.SRP_K * v + pow(R.SRP_G, b, R.SRP_N)) % R.SRP_N) >> (8 * 383) == 0
+    return R.srp_exchange_values(code, salt, a, b)[kind][0] == 0
+
+
+def leading_zero_params(verif, budget=4000):
+    """{kind: (a, b)}: a fixed, reproducible candidate sequence per kind is searched with Python ints (expected
+    256 candidates each); hits are remembered in harness/corpus/C03.json and re-verified on every run"""
+    import json
+    path = os.path.join(verif, "harness", "corpus", "C03.json")
+    known = {}
+    if os.path.exists(path):
+        try:
+            known = {e["kind"]: (int(e["a"], 16), int(e["b"], 16)) for e in json.load(open(path))}
+        except Exception:  # noqa: BLE001
+            known = {}
+    out, tried = {}, 0
+    for kind in LZ_KINDS:
+        if kind in known and _lz_holds(kind, *known[kind]):
+            out[kind] = known[kind]
+            tried += 1
+            continue
+        for i in range(budget):
+            a, b = _lz_candidate(kind, i)
+            tried += 1
+            if _lz_holds(kind, a, b):
+                out[kind] = (a, b)
+                break
+    return out, tried
+
+
 # ---- scenario generation ------------------------------------------------------
 def honest_lengths(cfg):
     code, salt, acc_id, ios_id = CFGS[cfg]
@@ -342,9 +396,19 @@ def honest_lengths(cfg):
     return m2, m4, m6, pt
 
 
-def gen_scenarios(tier, rnd):
+def gen_scenarios(tier, rnd, lz=None):
     S = []
     full = tier == "thorough"
+    # directed stream: honest exchanges (and a few mutations) whose S / A / B / M1 / M2 have a leading zero byte
+    for kind, (a_, b_) in sorted((lz or {}).items()):
+        for tr in TRANSPORTS:
+            S.append(Scn("leading-zero:" + kind + ":honest", tr, 0, honest=True, srp=(a_, b_), detail=kind))
+        S.append(Scn("leading-zero:" + kind + ":m4-proof-flip", "ip", 0, srp=(a_, b_), detail=kind,
+                     m4=[raw(r_flipbit(5, 0), "flip")]))
+        S.append(Scn("leading-zero:" + kind + ":m4-proof-stripped", "ip", 0, srp=(a_, b_), detail=kind,
+                     m4=[top(l_set(T_PROOF, lambda ctx, v: ctx.U.abstract(v.b.lstrip(b"\x00"))), "lstrip")]))
+        S.append(Scn("leading-zero:" + kind + ":m6-sig-other-key", "ip", 0, srp=(a_, b_), detail=kind,
+                     m6=[sub(d_items(l_set(T_SIG, lambda ctx, v: ctx.U.sign(OTHER_LTSK, lit(b"x")))), "othersig")]))
     for tr in TRANSPORTS:
         for cfg in range(len(CFGS)):
             S.append(Scn("honest", tr, cfg, honest=True))
@@ -543,7 +607,7 @@ def coarse(model_line):
 
 def replay_payload(r, model=None):
     return dict(scenario=r["ident"], transport=r["transport"], setup_code=r["code"], ios_pairing_id=r["ios_id"],
-                with_auth=r["with_auth"], srp_client_secret_a=hex(srp_a_value()),
+                with_auth=r["with_auth"], srp_client_secret_a=r["a_int"], reference_accessory_srp_secret_b=r["b_int"],
                 controller_ltsk_seed=Universe("c03").edsk(CTRL_LTSK).hex(), messages=r["bytes"],
                 impl=r["impl"], impl_exception=r["exc"], impl_record=r["record"], model=model,
                 oracle_reason=r["why_not"], oracle_record=r["just"],
@@ -563,13 +627,14 @@ def run(ctx):
     cov = Coverage("distinct (transport, configuration, M2, M4, M6 bytes) on which part 2 of the generator was started "
                    "(SRP computed) or part 1 rejected M2 through its own checks")
     viol = []
-    scns = gen_scenarios(tier, rnd)
+    lz, lz_tried = leading_zero_params(ctx["verif"])
+    scns = gen_scenarios(tier, rnd, lz)
     if ctx.get("replay"):
         # --replay <file>: re-run exactly the scenario a replay file names (deterministic secrets), all three ways
         import json
         want = json.load(open(ctx["replay"])).get("scenario")
         scns = [s for s in scns if s.ident() == want] or \
-               [s for s in gen_scenarios("thorough", rng(ctx["seed"], "c03")) if s.ident() == want]
+               [s for s in gen_scenarios("thorough", rng(ctx["seed"], "c03"), lz) if s.ident() == want]
         if not scns:
             return dict(coverage=dict(evaluations=0, distinct_nontrivial=0, rule="replay", samples=[]),
                         violations=[violation("replay:unknown-scenario", f"no scenario named {want}", False)])
@@ -648,6 +713,10 @@ def run(ctx):
                                     "transports bits 0 and 7; thorough: everything) and of the TLV headers, state and salt "
                                     "of M2 (its 384-byte key sampled: one bit per 16th byte in quick, per byte in thorough); "
                                     "every field drop/duplicate of M2, M4, M6 and the M6 sub-TLV")
+    cov.extra["directed_leading_zero"] = dict(
+        found={k: dict(a=hex(v[0]), b=hex(v[1])) for k, v in lz.items()}, candidates_evaluated=lz_tried,
+        note="exchanges whose SRP premaster secret S, public keys A, B or proofs M1, M2 start with 0x00 (1 in 256 each); "
+             "the controller's SRP secret is pinned through the Srp.generate_private_key seam")
     cov.extra["disagreements_checked"] = n_model
     cov.extra["model_cases"] = n_model
     cov.extra["expectation_lists_yielded"] = sorted(exp_lists)
